@@ -2480,7 +2480,15 @@ DLLIMPORT int cfg_opt_setnbool(cfg_opt_t *opt, cfg_bool_t value, unsigned int in
 
 DLLIMPORT int cfg_setnbool(cfg_t *cfg, const char *name, cfg_bool_t value, unsigned int index)
 {
-	return cfg_opt_setnbool(cfg_getopt(cfg, name), value, index);
+	cfg_opt_t *opt;
+
+	opt = cfg_getopt(cfg, name);
+	/* as the other by-name setters do: the callback set with
+	 * cfg_set_validate_func2() may refuse (or change) the value */
+	if (opt && opt->validcb2 && (*opt->validcb2)(cfg, opt, (void *)&value) != 0)
+		return CFG_FAIL;
+
+	return cfg_opt_setnbool(opt, value, index);
 }
 
 DLLIMPORT int cfg_setbool(cfg_t *cfg, const char *name, cfg_bool_t value)
